@@ -29,6 +29,8 @@ def prior_kwargs(cfg):
     kw["int_consts"] = (cfg["poly_trend"] + cfg["n_offsets"]) % 2 == 0
     # the reference period of the default K prior: the default (1 yr) for one third of the configurations, other values elsewhere
     kw["P0_days"] = {0: 365.25, 1: 200.0, 2: 1000.0}[cfg["n_offsets"]]
+    if cfg["K"] in ("default", "default_cap") and cfg["means"] == "nonzero" and cfg["poly_trend"] != 2:
+        kw["mu_K"] = 4.0  # the default-form K prior declared with a mean of its own
     return kw
 
 
